@@ -138,7 +138,7 @@ func c10(args []string) {
 		if exp.Err != "" {
 			c.Broken("reference cannot evaluate the group-tags shape: " + exp.Err)
 		}
-		jobs = append(jobs, &job{s, exp, Cfg{Buf: []int{1, 3, 128}[rep%3], Procs: []int{1, 2, 4}[rep%3]}})
+		jobs = append(jobs, &job{s, exp, Cfg{Buf: []int{1, 3, 128}[rep%3], Procs: []int{1, 2, 4}[rep%3], NoHooks: rep%2 == 0}})
 	}
 	// directed shape: a task with a joined in-port beside ordinary in-ports (header + parts + footer)
 	for rep := 0; rep < c.Pick(6, 24); rep++ {
